@@ -521,14 +521,27 @@ fn func_expression(input: SliceIter<Token>) -> Result<SliceIter<Token>, Expressi
         Result::Abort(e) => Result::Abort(e),
         Result::Fail(e) => Result::Fail(e),
         Result::Incomplete(offset) => Result::Incomplete(offset),
-        Result::Complete(rest, (pos, arglist, map)) => match tuple_to_func(pos, arglist, map) {
-            Ok(expr) => Result::Complete(rest, expr),
-            Err(e) => Result::Fail(Error::caused_by(
-                "Invalid func syntax",
-                Box::new(e),
-                Box::new(rest.clone()),
-            )),
-        },
+        Result::Complete(rest, (pos, arglist, map)) => {
+            // A name is bound once in a scope, the parameters are one scope.
+            if let Some(args) = &arglist {
+                for (i, (name, _)) in args.iter().enumerate() {
+                    if args[..i].iter().any(|(n, _)| n.to_string() == name.to_string()) {
+                        return Result::Abort(Error::new(
+                            format!("Duplicate parameter name {}", name.to_string()),
+                            Box::new(rest.clone()),
+                        ));
+                    }
+                }
+            }
+            match tuple_to_func(pos, arglist, map) {
+                Ok(expr) => Result::Complete(rest, expr),
+                Err(e) => Result::Fail(Error::caused_by(
+                    "Invalid func syntax",
+                    Box::new(e),
+                    Box::new(rest.clone()),
+                )),
+            }
+        }
     }
 }
 
